@@ -196,7 +196,7 @@ def main(argv=None):
         for j in getattr(mod, 'ENV_VARIANT_SHARDS', [0]):
             if j < n_planned:
                 shards = [*shards, dict(shards[j], variant_of=j, env_variant='python -OO', pyflags=['-OO']),
-                          dict(shards[j], variant_of=j, env_variant='logging DEBUG')]
+                          dict(shards[j], variant_of=j, env_variant='process state: DEBUG logging, decimal precision 6')]
                 if os.environ.get('RV_ENV_STRICT', '1') == '1':
                     shards.append(dict(shards[j], variant_of=j, env_variant='strict caller',
                                        strict_numpy=getattr(mod, 'STRICT_NUMPY', {})))
